@@ -133,7 +133,7 @@ var sims = map[string]sim.SimFunc{
 		tcpsim.Run(c, tcpsim.RunCfg{Strong: true, Gen: tcpsim.GenCfg{MaxConns: 3, AllowNoEnd: true, AllowRST: true, SynData: true}}, mk)
 	},
 	"c11t": func(c *sim.Ctx) {
-		tcpsim.Run(c, tcpsim.RunCfg{Lifecycle: true, Gen: tcpsim.GenCfg{MaxConns: 8, AllowNoEnd: true, AllowRST: true, CloseFlush: true, Reopen: true, BackJumps: true, Short: true, SynData: true}}, mk)
+		tcpsim.Run(c, tcpsim.RunCfg{Lifecycle: true, Gen: tcpsim.GenCfg{MaxConns: 8, AllowNoEnd: true, AllowRST: true, CloseFlush: true, Reopen: true, BackJumps: true, Short: true, SynData: true, Wide: true}}, mk)
 	},
 }
 
